@@ -9,5 +9,6 @@ CONSTANTS
   Offs <- OffsQ
   Needles <- NeedlesQ
   Fns <- FnsAll
+  Spell <- NoSpell
 INVARIANT PluralAsIsAgrees
 CHECK_DEADLOCK FALSE
